@@ -79,6 +79,31 @@ CHECKS = {
             "Generated-input search: documents of generated lines (one- and two-byte file names, every command with every argument shape, unknown commands, blank lines, raw bytes) are parsed and compared line by line and as a whole entry list with an independent model. Exploration of documents of <= 30 lines.",
             "Trusts M-plist (written from the statement, self-checked) and the derived Debug rendering of Plist as a faithful view of its private entry list; bytes 0x85/0xA0/VT/FF/CR in white-space-sensitive positions are outside the generated domain.",
             "pbt"),
+    "C15": ("DESIGN.md section 4 / C15",
+            "property-based differential testing of all twelve query views against M-plist views over generated entry sequences, plus metamorphic cross-checks between views",
+            "Generated-input search over entry sequences weighted towards @ignore / @cwd interplay; every view is compared with an independent computation from the sequence and the four file views are cross-checked against each other.",
+            "Trusts M-plist views (self-checked) and C14 for the text <-> sequence correspondence.",
+            "pbt"),
+    "C16": ("DESIGN.md section 4 / C16",
+            "property-based differential testing against M-scan with read schedules and fault injection (content faults; hard I/O error enumerated at every read call)",
+            "Generated-input search over multi-record inputs x chunked readers; every public field of every record is compared with the model; faults (orphan block, bad dependency, bad location, I/O error at each read) must fail the read as a whole.",
+            "Trusts M-scan; dependency items / locations come from fixed valid and invalid pools (C19 decides their validity).",
+            "pbt"),
+    "C18": ("DESIGN.md section 4 / C18",
+            "property-based testing with an inverse (split/rebuild) oracle and metamorphic probes of the revision through the comparison operators",
+            "Generated-input search over package-name strings (many '-', 'nb' in base / repeated / with up to 18 digits); the reported revision is cross-examined through >=, <=, >, < patterns, and the pkg_summary accessors are compared.",
+            "Assumes Pattern comparison is the 'version comparison' of the statement (checked by C01).",
+            "pbt"),
+    "C19": ("DESIGN.md section 4 / C19",
+            "complete enumeration of a finite segment grammar (plus random strings) against M-path; complete product of patterns x paths x colon layouts for Depend",
+            "Exhaustive over all segment sequences up to length 4 (thorough: 6) with/without leading and trailing '/', compared with an independent acceptance model, accessor/equality/re-parse laws; Depend decided by its definition from Pattern::new and PkgPath::new.",
+            "Trusts M-path (self-checked); Depend oracle uses the library's own Pattern::new / PkgPath::new for the halves, as the statement prescribes.",
+            "pbt"),
+    "C20": ("DESIGN.md section 4 / C20",
+            "property-based model comparison over generated directory trees (configurations) on a scratch file system; enumeration of file-name bijection; call sequences on Metadata",
+            "Generated-input search over package database trees (complete / incomplete package directories, stray files, names with several or no '-'); yielded packages, their split and all 14 metadata reads are compared with what was written.",
+            "Trusts the scratch file system; unreadable directories are not explored (root).",
+            "pbt"),
 }
 
 PENDING = {}  # id -> reason (properties not claimed)
